@@ -20,3 +20,4 @@ def run(chk, args):
     validate_shapley(chk, "shapley", "2,3,4,5,6,7,8" if q else "2,3,4,5,6,7,8,9,10", 25 if q else 200, 7 if q else 10)
     if q:
         validate_shapley(chk, "shapley", "9", 4, 7)     # a few games beyond 8 players in the quick tier too
+    validate_shapley(chk, "shapley", "11" if q else "11,12", 3 if q else 8, 7)     # 2^n beyond 1024: sparse games
